@@ -581,10 +581,12 @@ fn inject(rng: &mut Rng, msgs: &mut Vec<Vec<u8>>, recs: &[WRec], apex: &[u8], qt
             let mut seq = recs.to_vec();
             let l = seq.len() - 1;
             let rl = seq[l].rdata.len();
-            seq[l].rdata[rl - 17] ^= 0x40;
+            // the serial, or a field a careless comparison would not look at
+            let (off, kind) = *rng.pick(&[(17usize, "final-soa-differs"), (13, "final-soa-differs-in-refresh"), (5, "final-soa-differs-in-expire"), (1, "final-soa-differs-in-minimum")]);
+            seq[l].rdata[rl - off] ^= 0x40;
             let p = Packaging { splits: vec![seq.len()], question_in_followups: false, compress: false };
             *msgs = pack(&seq, apex, qtype, id, &p);
-            Fault { kind: "final-soa-differs", must_reject: true }
+            Fault { kind, must_reject: true }
         }
         14 => {
             // first record is not the SOA
